@@ -26,3 +26,27 @@ package internal
 // Metrics are observers.
 //@ interface Metrics method *
 //@   modifies nothing
+
+// ---------------------------------------------------------------------------
+// C12 / C07: what a cache hands out is rebuilt for the request at hand.
+// builtFor[x]: the request that message (or result) x was made from / made a
+// reply to.
+//@ import dnsmsg github.com/AdguardTeam/AdGuardDNS/internal/dnsmsg
+//@ import dns github.com/miekg/dns
+//@ ghost builtFor map[int]int
+// This package's view of the cloner (its ownership contract is C07's, in
+// dnsmsg): a new message with the source's sections, made from the source.
+//@ func (*dnsmsg.Cloner).Clone
+//@   modifies builtFor
+//@   ensures clone != nil && fresh(clone) && builtFor[clone] == msg && len(clone.Question) == len(msg.Question) &&
+//@           (forall x int :: x != clone ==> builtFor[x] == old(builtFor[x]))
+// A cached rewritten request is not handed out as it is (it was made from the
+// request of whoever filled the cache): the request at hand is cloned and gets
+// the cached question name.
+//@ func (*ResultModifiedRequest).CloneForReq
+//@   property C12 C07
+//@   requires m != nil && m.Msg != nil && len(m.Msg.Question) >= 1 && req != nil && len(req.Question) >= 1 && c != nil
+//@   modifies heap, builtFor
+//@   ensures rewritten-from-the-request-at-hand: clone != nil && fresh(clone) && clone.Msg != nil && builtFor[clone.Msg] == req &&
+//@           len(clone.Msg.Question) >= 1 && clone.Msg.Question[0].Name == old(m.Msg.Question[0].Name)
+//@   ensures (forall x int :: x != clone.Msg ==> builtFor[x] == old(builtFor[x]))
